@@ -149,8 +149,15 @@ func VerifC14_Relay() {
 	}
 	senders := [][]byte{[]byte("sender-one----------"), []byte("sender-two----------")}
 	var ms []attr
+	free := 2 // messages with arbitrary attributes; the last one is a fixed probe
+	if sym.Tier() == "thorough" {
+		free = 3
+	}
 	for i := 0; i < n; i++ {
-		a := attr{assignee: sym.Choice("assignee", 2), sender: sym.Choice("sender", 2)}
+		a := attr{}
+		if i < free {
+			a.assignee, a.sender = sym.Choice("assignee", 2), sym.Choice("sender", 2)
+		}
 		a.valset = i == 1 && sym.Bool("is-valset-update")
 		var msg *evmtypes.Message
 		if a.valset {
@@ -160,7 +167,7 @@ func VerifC14_Relay() {
 			msg = &evmtypes.Message{TurnstoneID: "c", ChainReferenceID: ChainA, Assignee: Vals[a.assignee].String(), AssigneeRemoteAddress: models.EthAddrs[a.assignee], AssignedAtBlockHeight: sdkmath.NewInt(100),
 				Action: &evmtypes.Message_SubmitLogicCall{SubmitLogicCall: &evmtypes.SubmitLogicCall{HexContractAddress: "0x6666666666666666666666666666666666666666", Payload: []byte{byte(i)}, Deadline: 1000, SenderAddress: senders[a.sender]}}}
 		}
-		a.required = sym.Bool("requires-estimate")
+		a.required = i < free && sym.Bool("requires-estimate")
 		id, err := env.Consensus.PutMessageInQueue(env.Ctx, c06Queue, msg, &consensus.PutOptions{RequireSignatures: true, RequireGasEstimation: a.required})
 		if err != nil {
 			panic(err)
@@ -172,7 +179,9 @@ func VerifC14_Relay() {
 				panic(err)
 			}
 		}
-		a.processed = sym.Choice("processed", 3)
+		if i < free {
+			a.processed = sym.Choice("processed", 3)
+		}
 		switch a.processed {
 		case 1:
 			if err := q.SetPublicAccessData(env.Ctx, id, &consensustypes.PublicAccessData{ValAddress: Vals[0], Data: []byte("tx")}); err != nil {
